@@ -2,7 +2,6 @@ package x10
 
 import (
 	"context"
-	"reflect"
 	"testing"
 	"testing/synctest"
 	"time"
@@ -60,6 +59,7 @@ func TestX10Options(t *testing.T) {
 					return
 				}
 				pr := reflPipe(ps)
+				synctest.Wait() // the workers have started
 				switch pbe.opt {
 				case "queue":
 					line["got"] = pr.q.Cap()
@@ -82,7 +82,6 @@ func TestX10Options(t *testing.T) {
 			for _, id := range ids {
 				stale[id] = true
 			}
-			_ = reflect.TypeOf(0)
 		})
 	}
 }
